@@ -17,7 +17,7 @@ pub fn check_spec(prop: &str) -> Option<CheckSpec> {
     Some(match prop {
         "C09" => base(
             "C09",
-            vec![Box::new(super::scen_race::Race), Box::new(super::scen_race::RaceScan)],
+            vec![Box::new(super::scen_race::Race), Box::new(super::scen_race::RaceScan), Box::new(super::scen_race::RaceImports)],
             vec!["all cross-thread state of the index lives behind DashMap shard locks, the three mutexes and one SeqCst atomic; yield points sit on both sides of every lock operation"],
         ),
         "C01" => base(
